@@ -36,12 +36,22 @@ impl Harness for C09 {
         logit::plan(t, seed, &mut jobs);
         let mut floors = logit::floors(t);
         floors.extend(quad::floors(t, seed));
+        let jobs = {
+            let mut j: Vec<Job> = jobs;
+            j.insert(0, Job::new("builders", json!({"kind": "builders"})));
+            j
+        };
         Plan {
             jobs,
             budget_s: if t { 2700 } else { 40 },
             case_deadline_ms: 20_000,
-            floors,
+            floors: {
+                let mut f = floors;
+                f.push(("builder_chains", 5));
+                f
+            },
             bounds: json!({
+                "builders": mc_sc::builders::BOUNDS,
                 "logistic": logit::bounds(t, seed),
                 "lbfgs_quadratics": quad::bounds(t),
             }),
@@ -52,6 +62,7 @@ impl Harness for C09 {
         match job.kind() {
             "quad" => quad::run(job),
             "multiset" | "sequence" | "structured" => logit::run(job),
+            "builders" => mc_sc::builders::run("C09"),
             other => panic!("unknown job kind {}", other),
         }
     }
